@@ -451,7 +451,9 @@ def _unpack_filter_extensible_header(
 
     header_split.pop(0)
 
-    if header_split and header_split[0] == "dn":
+    # ':dn' is only the dnattrs flag when something else identifies what to
+    # match on, '(:dn:=value)' is a matching rule that is called dn.
+    if header_split and header_split[0] == "dn" and (attribute is not None or len(header_split) > 1):
         for_dn = True
         header_split.pop(0)
 
